@@ -59,6 +59,23 @@ def cases(cplx):
                 return (a[0] * den, -a[1] * den)
             return cbuild(s, f)
         add("inverse[%s]" % nm, [("x", (2,) + s, "real")], lambda x: cplx.inverse(x), inv_spec)
+    # every broadcast combination torch accepts for the element-wise product (neither operand need have the result's shape)
+    for nm, sx, sy, so, ax, ay in (
+        ("column,row", (n, 1), (1, m), (n, m), lambda i, j: (i, 0), lambda i, j: (0, j)),
+        ("row,column", (1, m), (n, 1), (n, m), lambda i, j: (0, j), lambda i, j: (i, 0)),
+        ("vector,matrix", (m,), (n, m), (n, m), lambda i, j: (j,), lambda i, j: (i, j)),
+        ("matrix,vector", (n, m), (m,), (n, m), lambda i, j: (i, j), lambda i, j: (j,)),
+        ("matrix,column", (n, m), (n, 1), (n, m), lambda i, j: (i, j), lambda i, j: (i, 0)),
+        ("unit,matrix", (1, 1), (n, m), (n, m), lambda i, j: (0, 0), lambda i, j: (i, j)),
+    ):
+        for fname in ("scalar_mult", "elementwise_mult"):
+            add("%s[%s]" % (fname, nm), [("x", (2,) + sx, "real"), ("y", (2,) + sy, "real")],
+                lambda x, y, fname=fname: getattr(cplx, fname)(x, y),
+                lambda x, y, so=so, ax=ax, ay=ay: cbuild(so, lambda i, j: cmul(cel(x, *ax(i, j)), cel(y, *ay(i, j)))))
+    add("scalar_mult[rank3 (n,1,k), matrix (m,1)]", [("x", (2, n, 1, k), "real"), ("y", (2, m, 1), "real")],
+        lambda x, y: cplx.scalar_mult(x, y),
+        lambda x, y: cbuild((n, m, k), lambda i, j, q: cmul(cel(x, i, 0, q), cel(y, j, 0))))
+
     def div_rule(x, y):
         vc = astvc.VC.cur()
         same = z3.And(n.z == n2.z, m.z == m2.z)
